@@ -34,6 +34,8 @@ def gen(rng, tier, index):
     if tail_rng < 0.5:
         ops.append(["advance", rng.choice([9.9, 10.0, 10.2, 20.1])])
     ops.extend(netgen.make_ops(rng, cfg["version"], 1, dict(WEIGHTS, advance=0, restart=0, garbage=0, invalid_frame=0), nodes=(1, 1))[-1:])
+    if cfg["flavour"] in ("aserial", "atcp", "amqtt") and rng.random() < 0.2:
+        cfg["prelude_quick_stop"] = True
     roll = rng.random()
     if roll < 0.15:
         cfg["cb_raise"] = sorted(rng.sample(range(80), 25))  # an application callback that raises now and then
